@@ -20,18 +20,24 @@ def noise():
 def chk_finite(inp):
     seed = inp["seed"]
     for f in (aotools.ft_phase_screen, aotools.ft_sh_phase_screen):
-        a = f(0.15, 16, 0.05, 20., 0.01, seed=seed)
-        noise()
-        b = f(0.15, 16, 0.05, 20., 0.01, seed=seed)
-        if not numpy.array_equal(a, b):
-            return {"message": "%s(seed=%r) not reproducible across interleaved calls" % (f.__name__, seed), "observed": float(abs(a - b).max()), "expected": 0.0}
+        for N in (16, 15, 9, 2):          # even and odd sizes
+            a = f(0.15, N, 0.05, 20., 0.01, seed=seed)
+            noise()
+            b = f(0.15, N, 0.05, 20., 0.01, seed=seed)
+            c = f(0.15, N, 0.05, 20., 0.01, None, seed)          # the seed given positionally (after FFT)
+            if not (numpy.array_equal(a, b) and numpy.array_equal(a, c)):
+                return {"message": "%s(N=%d, seed=%r) not reproducible across interleaved calls / keyword vs positional seed" % (f.__name__, N, seed), "observed": float(max(abs(a - b).max(), abs(a - c).max())), "expected": 0.0}
 
 
 def chk_infinite(inp):
     seed = inp["seed"]
     for cls, kw in ((aotools.PhaseScreenVonKarman, {"n_columns": 2}), (aotools.PhaseScreenKolmogorov, {"stencil_length_factor": 2})):
-        for params in ((8, 0.1, 0.2, 20.), (16, 0.05, 0.15, 10.)):
+        for params in ((8, 0.1, 0.2, 20.), (16, 0.05, 0.15, 10.), (9, 0.1, 0.2, 20.)):
             a = cls(*params, random_seed=seed, **kw)
+            # the documented signature: (nx_size, pixel_scale, r0, L0, random_seed=None, ...): a seed given positionally is the same seed
+            pos = cls(*(params + (seed,)), **kw)
+            if not numpy.array_equal(a.scrn, pos.scrn):
+                return {"message": "%s%r: the seed %r given as fifth positional argument does not give the screen of random_seed=%r" % (cls.__name__, params, seed, seed), "observed": float(abs(a.scrn - pos.scrn).max()), "expected": 0.0}
             rows_a = [a.scrn.copy()] + [a.add_row().copy() for _ in range(4)]
             noise()
             # other geometry / outer scales in between, then the same screen again
